@@ -220,6 +220,22 @@ func Schedules2(r *vh.Rng, in []byte, interior []int, cuts []int) []Schedule {
 		}
 		out = append(out, s)
 	}
+	// the last chunk(s) start at a line boundary and the final one carries io.EOF
+	if len(le) > 0 {
+		for _, p := range []int{le[len(le)-1], le[r.Pick(len(le))]} {
+			s := Schedule{Name: "line-boundary-then-rest+eof", EOFWithLast: true}
+			for left, pos := p, 0; left > 0; {
+				k := 1 + r.Pick(pickInt(r, 50, 5000))
+				if k > left {
+					k = left
+				}
+				s.Sizes = append(s.Sizes, k)
+				left -= k
+				pos += k
+			}
+			out = append(out, s)
+		}
+	}
 	for _, c := range cuts {
 		if c <= 0 || c >= n {
 			continue
@@ -623,6 +639,11 @@ func Variants() []Variant {
 						if b[k] == ' ' && r.Chance(0.5) {
 							b[k] = '"'
 						}
+					}
+					// ... and always some in the last line
+					b = append(b, fmt.Sprintf("R|q\"%s|%d|say \"%s\"", word(r), r.Between(1, 99), word(r))...)
+					if r.Chance(0.6) {
+						b = append(b, '\n')
 					}
 					return b
 				}})
